@@ -793,6 +793,16 @@ func readAll(db *NoKV.DB, cfg *wlConfig, values map[string]int) []string {
 	return out
 }
 
+// fillerKey returns a key outside the observed alphabet whose values go to the given bucket.
+func fillerKey(bucket uint32, buckets int) []byte {
+	for i := 0; ; i++ {
+		k := []byte(fmt.Sprintf("zz%d", i))
+		if kv.ValueLogBucket(kv.InternalKey(kv.CFDefault, k, 1), uint32(buckets)) == bucket {
+			return k
+		}
+	}
+}
+
 func safeOpen(opt *NoKV.Options) (db *NoKV.DB, perr string) {
 	defer func() {
 		if x := recover(); x != nil {
@@ -869,11 +879,33 @@ func observe(img image, cfg *wlConfig, values map[string]int) obsT {
 		// The L0 -> ingest-buffer move is not forced here: lookups inside an ingest shard follow the
 		// key-range tie rule (known findings C01/C02-F2), which is the lsm family's subject; the
 		// workload's own move step still runs before the crash.
+		// new client writes of other keys until the value-log file of every bucket has rotated (the
+		// file that was active at the crash may hold records of the interrupted request), then GC
+		// of every sealed file, newest first
+		for b := 0; b < cfg.Buckets; b++ {
+			_, before := db.VerifVlogFids(uint32(b))
+			fk := fillerKey(uint32(b), cfg.Buckets)
+			for i := 0; i < 40; i++ {
+				if _, now := db.VerifVlogFids(uint32(b)); now > before {
+					break
+				}
+				val := bytes.Repeat([]byte{'f'}, 40)
+				var err error
+				if cfg.Txn {
+					err = db.Update(func(txn *NoKV.Txn) error { return txn.Set(fk, val) })
+				} else {
+					err = db.Set(fk, val)
+				}
+				if err != nil {
+					panic(err)
+				}
+			}
+		}
 		for b := 0; b < cfg.Buckets; b++ {
 			fids, active := db.VerifVlogFids(uint32(b))
-			for _, f := range fids {
-				if f < active {
-					if err := db.VerifCrashGC(uint32(b), f); err != nil {
+			for i := len(fids) - 1; i >= 0; i-- {
+				if f := fids[i]; f < active {
+					if err := db.VerifCrashGC(uint32(b), f); err != nil && !errors.Is(err, utils.ErrEmptyKey) {
 						o.note += " gc-error:" + err.Error()
 					}
 				}
@@ -954,6 +986,11 @@ func (r *crashRun) stepTerms() ([]string, error) {
 			if !s.skipped {
 				out = append(out, fmt.Sprintf("SMv %s %d", corr.ListN(s.moved), s.moveLvl))
 			}
+		case "close":
+			for i := 0; i < s.moveLvl; i++ {
+				out = append(out, "SFl")
+			}
+			out = append(out, "SCl")
 		case "batch", "gc", "cbatch":
 			if s.kind == "gc" && s.skipped {
 				continue
@@ -1121,14 +1158,21 @@ func runWorkload(c *corr.Ctx, cfg *wlConfig, label string) error {
 			r.doGC(db)
 		}
 	}
-	r.mu.Lock()
-	r.recording = false
-	r.mu.Unlock()
+	// a clean Close, still recorded: it waits for the flush of every sealed memtable and flushes
+	// the WAL's userland buffer; every file operation in it is a crash point, and the cleanly
+	// closed directory is the last image that is reopened
+	cs := r.beginStep("close")
+	cs.moveLvl = db.VerifLSM().VerifNumImmutables()
 	flushGate.setOpen(true)
 	flushGate.tokens <- struct{}{}
 	if err := db.Close(); err != nil {
 		return fmt.Errorf("close: %w", err)
 	}
+	r.endStep(0)
+	r.mu.Lock()
+	r.addPoint("closed")
+	r.recording = false
+	r.mu.Unlock()
 	drainTokens()
 	if r.hookErr != "" {
 		return errors.New(r.hookErr)
@@ -1291,7 +1335,7 @@ func runCrash(c *corr.Ctx) error {
 	installHooks()
 	c.Meta("run_module", "RunCrash")
 	c.Meta("exhaustive", false)
-	c.Meta("rule", "small workloads (<= 12 batches: plain Set/Del or transactions of 1-3 keys, in transactional workloads also 2-3 transactions committed concurrently so that one commit batch holds several requests, 4 keys, values on both sides of ValueThreshold, 1-2 value-log buckets, tiny value-log files and memtables so that both rotate, SyncWrites on/off, forced rotations, gated flushes, one L0 move, one value-log GC, optional manifest rewrites) on a real DB over a recording vfs.FS; every state-changing vfs operation and every verifhook.Crash site is a crash point: the directory image at that instant is reopened with the real Open, every key is read through Get / GetVersionedEntry / a transaction, then rotation + flush of every memtable + GC of every sealed value-log file are forced and the reads repeated after each stage, then a clean reopen. non-trivial = crash point inside a batch or a maintenance step")
+	c.Meta("rule", "small workloads (<= 12 batches: plain Set/Del or transactions of 1-3 keys, in transactional workloads also 2-3 transactions committed concurrently so that one commit batch holds several requests, 4 keys, values on both sides of ValueThreshold, 1-2 value-log buckets, tiny value-log files and memtables so that both rotate, SyncWrites on/off, forced rotations, gated flushes, one L0 move, one value-log GC, optional manifest rewrites) on a real DB over a recording vfs.FS; every state-changing vfs operation and every verifhook.Crash site is a crash point: the directory image at that instant is reopened with the real Open, every key is read through Get / GetVersionedEntry / a transaction, then rotation + flush of every memtable, new writes of other keys until the value-log file of every bucket has rotated, GC of every sealed value-log file (newest first) are forced and the reads repeated after each stage, then a clean reopen; every workload ends with a recorded clean Close whose directory is reopened the same way. non-trivial = crash point inside a batch or a maintenance step")
 	if c.Replay != "" {
 		cases, err := c.ReplayCases()
 		if err != nil {
@@ -1344,6 +1388,14 @@ func runCrash(c *corr.Ctx) error {
 				{Kind: "cbatch", Reqs: [][]wlEntry{one(kA), one(kB)}},
 				{Kind: "cbatch", Reqs: [][]wlEntry{one(kB), one(kA), one(kB)}},
 				{Kind: "batch", Entries: one(kB)}}})
+	}
+	// lost write at an offset equal to the live record's: key 1 is the first record of file 0; a
+	// second transaction on key 1 rotates the value log and crashes after the head edit, leaving
+	// its record as the first one of file 1 (both in transactional and in plain mode)
+	for _, txn := range []bool{true, false} {
+		scripts = append(scripts, &wlConfig{Txn: txn, Sync: true, Buckets: 1, MemTable: 1 << 20, VlogSize: 160, Threshold: 32, ManRewr: 64 << 20,
+			Steps: []wlStep{{Kind: "batch", Entries: []wlEntry{big(1)}}, {Kind: "batch", Entries: []wlEntry{big(2)}},
+				{Kind: "batch", Entries: []wlEntry{big(1)}}, {Kind: "batch", Entries: []wlEntry{big(3)}}}})
 	}
 	for i, cfg := range scripts {
 		c.Count("workload_scripted")
